@@ -1,0 +1,42 @@
+//! Verification hooks (only compiled with `--cfg datacake_verif`): re-exports of the
+//! crate-private pieces a conformance harness has to drive directly.
+
+pub use crate::keyspace::{
+    Del,
+    Diff,
+    KeyspaceActor,
+    KeyspaceGroup,
+    KeyspaceInfo,
+    KeyspaceTimestamps,
+    LastUpdated,
+    MultiDel,
+    MultiSet,
+    PurgeDeletes,
+    Serialize,
+    Set,
+    CONSISTENCY_SOURCE_ID,
+    NUM_SOURCES,
+    READ_REPAIR_SOURCE_ID,
+};
+pub use crate::replication::poller_verif as repair;
+pub use crate::rpc::services::consistency_impl::{
+    BatchPayload,
+    ConsistencyService,
+    Context,
+    MultiPutPayload,
+    MultiRemovePayload,
+    PutPayload,
+    RemovePayload,
+};
+pub use crate::rpc::services::replication_impl::{
+    FetchDocs,
+    FetchedDocs,
+    GetState,
+    KeyspaceOrSwotSet,
+    PollKeyspace,
+    ReplicationService,
+};
+pub use crate::rpc::{ConsistencyClient, ReplicationClient};
+
+/// The crate-private `DocVec`.
+pub type DocVec<T> = smallvec::SmallVec<[T; 4]>;
